@@ -525,6 +525,9 @@ class Cpt(object):
     def R(self, angle_offset=0):
         """Return rotation matrix"""
         angle = self.angle + angle_offset
+        # Normalise to [-180, 180) so that 270, -270, 360, ... use the
+        # exact entries below instead of cos/sin rounding errors.
+        angle = (angle + 180) % 360 - 180
 
         Rdict = {0: ((1, 0), (0, 1)),
                  90: ((0, 1), (-1, 0)),
